@@ -19,13 +19,24 @@ Streams
                 ranges = runs of 1..4 whole sibling statements of every suite of function bodies with control
                 flow (gen.refactor_gen.FlowG: if / elif / else, for with break / continue / else over possibly
                 empty tuples, try / except / else / finally, nested blocks, rebinding on some paths, augmented
-                and tuple assignment, loop-carried names): extract_function, compile, then the entry function
+                and tuple assignment, loop-carried names; while loops with a counter; loops nested in loop bodies;
+                `if c: break / continue` at EVERY position of a loop body - in front of, between and behind nested
+                loops, nested in if / try blocks, bare at the end of a branch, in the else clause of an inner loop;
+                early `return` nested in an `if`; lambdas called at once, local defs with a loop and a jump of
+                their own, local classes): extract_function, compile, then the entry function
                 of the old and the new program is called on argument tuples drawn until every line of the
                 selection was executed (gen.refactor_flow); same return value required wherever the
-                original returns.  Run in fresh-interpreter workers next to the in-process streams.
+                original returns (a refactored program that does not terminate is stopped by a line / int-size
+                budget and counts as different).  Selections are drawn with more weight on runs that contain jumps,
+                nested loops, new scopes.  Run in fresh-interpreter workers next to the in-process streams.
   inputs        real `extract._find_inputs_and_outputs` calls: the names of the selection with the verdict of
                 the real lookup for EVERY read (computed by the harness with the real `context.goto` /
                 `_is_name_input`), the Lean model `findInputsOutputs` must return the same two lists
+  nonextractable  real outermost `extract._check_for_non_extractables` calls (text streams, corpus, in-process flow
+                programs): the selected nodes as a forest (leaves with their value, loop statements split at `else`,
+                scope nodes, other nodes); the Lean model `NonExtractable.refuses` (branches translated from the
+                source) must refuse exactly when the real function raised, and must agree with the specification
+                `NonExtractable.loose` (stream nonextractable-spec)
 """
 import ast
 import json
@@ -38,7 +49,7 @@ from common import short
 from gen import refactor_gen, refactor_shapes, refactor_flow
 from props.c07 import dump_tree, load_own_known, split_keepends, sandbox_quirk
 
-MODELS = ['Refactor', 'Tree', 'ExtractIO']
+MODELS = ['Refactor', 'Tree', 'ExtractIO', 'NonExtractable']
 MANIFEST = dict(
     text='Theorems over the model of refactoring.inline and extract._replace: inline either refuses (messages '
          'identical to the source, translator-checked) or rewrites only the references, the defining statement and '
@@ -53,9 +64,16 @@ MANIFEST = dict(
          'statement selection become parameters; loop shape translator-checked, original and fixed shape accepted) '
          'is complete, sound and duplicate-free relative to the per-occurrence verdict of the real lookup: every '
          'read whose lookup leaves the selection yields a parameter whatever earlier occurrences of the name '
-         'resolved to (kernel-checked witness that a look-up-once loop is not). Tie: translator + correspondence '
+         'resolved to (kernel-checked witness that a look-up-once loop is not); _check_for_non_extractables (its '
+         'branches translated from the source as data: which recursive call gets which part of the children and which '
+         'value of in_loop, whether in_loop is rebound) refuses a statement selection iff it contains return / yield or a '
+         'break / continue not enclosed by a loop of the selection (nested def / class / lambda start afresh, a loop\'s '
+         'else clause is outside of it), and its flag never leaks from a node to the later siblings (general theorem for '
+         'every variant that does not rebind the flag; kernel-checked counter-witnesses for the shared-call variant that '
+         'rebinds it and for a variant that counts the else clause to the loop). Tie: translator + correspondence '
          '(table rows through the real inline and through CPython ast; captured inline / _replace / '
-         '_find_inputs_and_outputs calls on generated programs). Compiles-or-refuses, behavioural equivalence and '
+         '_find_inputs_and_outputs / _check_for_non_extractables calls on generated programs). Compiles-or-refuses, '
+         'behavioural equivalence and '
          'the extract->inline round trip are checked by compiling and executing generated programs (a test, '
          'labelled as such), for statement ranges on function bodies with control flow by calling the function of '
          'the old and the new program on argument tuples drawn until every line of the selection ran; failures of '
@@ -210,14 +228,35 @@ class Capture:
         self.inline_names = None
         self.replace_calls = []
         self.inputs_calls = []      # (request for the Lean model, what the real function returned)
+        self.check_calls = []       # outermost `_check_for_non_extractables` calls: (request, {'refused': bool})
+        self.check_depth = 0
 
     def __enter__(self):
         from jedi.api import refactoring
         from jedi.api.refactoring import extract
         import jedi.api as api
         self.mods = (refactoring, extract)
-        self.orig = (refactoring.inline, extract._replace, extract._find_inputs_and_outputs)
+        self.orig = (refactoring.inline, extract._replace, extract._find_inputs_and_outputs,
+                     extract._check_for_non_extractables)
         cap = self
+
+        def _check_for_non_extractables(nodes, in_loop=False):
+            # the function calls itself through the module global: only the outermost call is recorded
+            cap.check_depth += 1
+            try:
+                res = cap.orig[3](nodes, in_loop)
+                raised = False
+                return res
+            except RefactoringErrorBox.cls:
+                raised = True
+                raise
+            finally:
+                cap.check_depth -= 1
+                if cap.check_depth == 0 and not in_loop:
+                    try:
+                        cap.check_calls.append((nonextractable_request(nodes), {'refused': raised}))
+                    except NameError:       # another exception class left the function: not recorded
+                        pass
 
         def inline(inference_state, names):
             cap.inline_names = list(names)
@@ -240,10 +279,46 @@ class Capture:
         refactoring.inline = inline
         extract._replace = _replace
         extract._find_inputs_and_outputs = _find_inputs_and_outputs
+        extract._check_for_non_extractables = _check_for_non_extractables
+        from jedi.api.exceptions import RefactoringError
+        RefactoringErrorBox.cls = RefactoringError
         return self
 
     def __exit__(self, *a):
-        self.mods[0].inline, self.mods[1]._replace, self.mods[1]._find_inputs_and_outputs = self.orig
+        self.mods[0].inline, self.mods[1]._replace, self.mods[1]._find_inputs_and_outputs = self.orig[:3]
+        self.mods[1]._check_for_non_extractables = self.orig[3]
+
+
+class RefactoringErrorBox:
+    cls = ()
+
+
+LOOP_TYPES = ('for_stmt', 'while_stmt')
+SCOPE_TYPES = ('funcdef', 'classdef', 'lambdef')
+
+
+def nonextractable_request(nodes):
+    """the selection as the forest the Lean model `NonExtractable.check` walks: leaves with their value, loop
+    statements split at their `else` keyword, scope nodes, other nodes (node types: the python grammar, not read
+    from jedi)"""
+    def conv(ns):
+        out = []
+        for n in ns:
+            if not hasattr(n, 'children'):
+                out.append({'k': 'leaf', 'v': n.value})
+            elif n.type in LOOP_TYPES:
+                ch = n.children
+                idx = len(ch)
+                for i, c in enumerate(ch):
+                    if c.type == 'keyword' and c.value == 'else':
+                        idx = i
+                out.append({'k': 'loop', 'b': conv(ch[:idx]), 'e': conv(ch[idx:])})
+            elif n.type in SCOPE_TYPES:
+                out.append({'k': 'scope', 'c': conv(n.children)})
+            else:
+                out.append({'k': 'other', 'c': conv(n.children)})
+        return out
+    return {'op': 'nonextractable', 'nodes': conv(nodes)}
 
 
 def inputs_request(module_context, context, nodes, result):
@@ -589,6 +664,9 @@ def stream_programs(ctx, reqs, pending):
             for req, impl in cap.inputs_calls:
                 reqs.append(req)
                 pending.append(('inputs', case, impl))
+            for req, impl in cap.check_calls:
+                reqs.append(req)
+                pending.append(('nonextractable', case, impl))
             if err is not None:
                 ctx.count('oracle-compile', key, nontrivial=False, bucket=kind + '/refused')
                 continue
@@ -673,6 +751,22 @@ def flow_bucket(sel):
     return 'extract_function/flow:%s:%s' % ('nested' if sel.get('depth') else 'body', '+'.join(comp) or 'simple')
 
 
+def flow_inside(sel):
+    """what `_check_for_non_extractables` has to decide on in this run of statements (histogram key)"""
+    ins = list(sel.get('inside') or [])
+    tags = []
+    jumps = [i for i, w in enumerate(ins) if w in ('break', 'continue')]
+    if jumps:
+        tags.append('jump-behind-loop' if 'loop' in ins[:jumps[-1]] else 'jump')
+    elif 'loop' in ins:
+        tags.append('loop')
+    if 'return' in ins[:-1] or ('return' in ins and not sel.get('ends_return')):
+        tags.append('return')
+    if any(w in ins for w in ('def', 'class', 'lambda')):
+        tags.append('scope')
+    return '+'.join(tags) or 'plain'
+
+
 def flow_judge(ctx, r, origin='generated program'):
     """one record of gen.refactor_flow (worker or corpus) -> counts and failures; a corpus input and a generated
     one that fail alike are reported separately (one replay each)"""
@@ -683,7 +777,7 @@ def flow_judge(ctx, r, origin='generated program'):
     key = (r.get('key') or r.get('source'), tuple(sel['start']), tuple(sel['until']))
     bucket = flow_bucket(sel)
     if r['status'] == 'refused':
-        ctx.count('oracle-compile', key, nontrivial=False, bucket='extract_function/flow/refused')
+        ctx.count('oracle-compile', key, nontrivial=False, bucket='extract_function/flow/refused:' + flow_inside(sel))
         return
     if r['status'] == 'raised':
         # totality / exception classes are C07's statement: counted, not judged here
@@ -737,6 +831,9 @@ def flow_one(src, entry, sel, args, sink=None):
         for req, impl in cap.inputs_calls:
             sink[0].append(req)
             sink[1].append(('inputs', case, impl))
+        for req, impl in cap.check_calls:
+            sink[0].append(req)
+            sink[1].append(('nonextractable', case, impl))
     res.update({'rec': 'case', 'entry': entry, 'sel': sel, 'covered': len(covered), 'need': len(need),
                 'old_raises': sum(1 for (o, l_) in runs if o[0] != 'ok' or refactor_flow.exception_leaves(l_, sel)),
                 'nargs': len(args), 'source': src,
@@ -893,6 +990,14 @@ def compare(ctx, reqs, pending, answers):
             ctx.count('inputs', key, nontrivial=any(o['outer'] for o in reads),
                       bucket='verdicts-of-one-name-differ' if mixed else 'aug-target' if
                       any(o['aug'] for o in req['occs']) else 'plain')
+        elif kind == 'nonextractable':
+            model = ans if 'error' in ans else {'refused': ans['refused']}
+            words = re.findall(r'"v": "(break|continue|return|yield)"|"k": "(loop|scope)"', key)
+            flat = sorted({a or b for a, b in words})
+            ctx.count('nonextractable', key, nontrivial=bool(flat), bucket='+'.join(flat) or 'plain')
+            if 'error' not in ans and ans['refused'] != ans['loose']:
+                # the translated function disagrees with the specification on this selection
+                ctx.tie_broken('correspondence:nonextractable-spec', short({'case': case, 'model': ans}, 2500))
         else:
             if 'error' in ans:
                 model = ans
@@ -928,6 +1033,10 @@ def run(ctx):
         'decorators) are not covered',
         'get_references decides which names `inline` receives; the model starts from those names (captured)',
         '_find_nodes is not modelled: compile + execution oracle only',
+        '_check_for_non_extractables: the model works on a forest abstraction of the parso nodes (leaf values, loop / '
+        'scope / other nodes; node types of the loop and scope branches compared with the python grammar names by the '
+        'correspondence stream); that a refused / accepted selection makes extract_function as a whole refuse / return a '
+        'compilable program is checked by the oracle only',
         'extract_function input analysis: the loop of _find_inputs_and_outputs is modelled and proved complete / sound / '
         'duplicate-free relative to the per-occurrence verdict of the real lookup (context.goto + _is_name_input, flow '
         'analysis), which is not modelled; whether those verdicts and the output analysis '
